@@ -410,3 +410,56 @@ Lemma grouped_alternation_example :
   map (fun n => wallet_admits (wallet_patterns oracle_ab ["W/a|b"%string]) (acct_W n 1))
       ["a"; "b"; "ax"; "xb"; "c"]%string = [true; true; false; false; false].
 Proof. split; vm_compute; reflexivity. Qed.
+
+(* ---------------------------------------------------------------------------------------------
+   The enclosing cannot be decided from how the text begins and ends: a part whose alternatives are
+   each a group of their own -- (val-a)|(val-b) begins with "(" and ends with ")" -- still has its
+   alternation at top level.  Spliced without the enclosing (?: ) the text ^wallet1/(val-a)|(val-b)$
+   reads (^wallet1/(val-a))|((val-b)$).  (Seeded change C13-2: an "already grouped" shortcut in
+   utils.GroupAlternatives.) *)
+Open Scope string_scope.
+Definition groups_text : string := "(val-a)|(val-b)".
+Definition oracle_groups (t : string) : option (list re) :=
+  if String.eqb t "wallet1" then Some [lit "wallet1"]
+  else if String.eqb t groups_text then Some [lit "val-a"; lit "val-b"]
+  else None.
+Definition acct_wallet1 (n : string) (id : N) : account :=
+  {| a_id := id; a_wallet := "wallet1"; a_name := n; a_locked := false |}.
+Close Scope string_scope.
+
+Definition spec_groups : re := Seq (lit "wallet1") (Seq slash (Alt (lit "val-a") (lit "val-b"))).
+Definition unenclosed_groups : re :=
+  textual_concat [[Bol]; [lit "wallet1"]; [slash]; [lit "val-a"; lit "val-b"]; [Eol]].
+
+Lemma group_per_alternative_escapes :
+  has_bar groups_text = true /\
+  (exists rest, groups_text = String "(" rest) /\ (exists front, groups_text = (front ++ ")")%string) /\
+  search unenclosed_groups (codes "wallet1/val-a-retired") = true /\
+  search unenclosed_groups (codes "wallet1/old-val-b") = true /\
+  ~ full_lang spec_groups (codes "wallet1/val-a-retired") /\
+  ~ full_lang spec_groups (codes "wallet1/old-val-b").
+Proof.
+  split; [vm_compute; reflexivity|].
+  split; [eexists; reflexivity|].
+  split; [exists "(val-a)|(val-b"%string; reflexivity|].
+  repeat split; try (vm_compute; reflexivity).
+  - intro H. apply full_match_spec in H. vm_compute in H. discriminate.
+  - intro H. apply full_match_spec in H. vm_compute in H. discriminate.
+Qed.
+
+(* the managers as they are: the part is enclosed because it contains `|`, whatever it begins and
+   ends with *)
+Lemma group_text_by_bar_only : forall text,
+  has_bar text = true -> group_text text = ("(?:" ++ text ++ ")")%string.
+Proof. intros text H. unfold group_text. rewrite H. reflexivity. Qed.
+
+Lemma group_by_bar_only : forall text alternatives,
+  has_bar text = true -> group text alternatives = [alts alternatives].
+Proof. intros text alternatives H. unfold group. rewrite H. reflexivity. Qed.
+
+Lemma group_per_alternative_example :
+  map (fun n => dirk_admits (dirk_patterns oracle_groups ["wallet1/(val-a)|(val-b)"%string]) (acct_wallet1 n 1))
+      ["val-a"; "val-b"; "val-a-retired"; "old-val-b"; "val-c"]%string = [true; true; false; false; false] /\
+  map (fun n => wallet_admits (wallet_patterns oracle_groups ["wallet1/(val-a)|(val-b)"%string]) (acct_wallet1 n 1))
+      ["val-a"; "val-b"; "val-a-retired"; "old-val-b"; "val-c"]%string = [true; true; false; false; false].
+Proof. split; vm_compute; reflexivity. Qed.
